@@ -27,23 +27,23 @@ import (
 const defaultSeed = 20261002
 
 type runRecord struct {
-	Prop      string           `json:"property"`
-	Seed      int64            `json:"seed"`
-	Run       int              `json:"run"`
-	Outcome   *core.Outcome    `json:"outcome"`
-	TraceHash string           `json:"trace_hash"`
-	SchedSig  string           `json:"sched_sig"`
-	Steps     int              `json:"steps"`
-	Choices   int              `json:"choices"`
-	MaxLive   int              `json:"max_live"`
-	Policy    string           `json:"policy"`
-	P         []int            `json:"P,omitempty"`
-	S         []int            `json:"S,omitempty"`
-	UsedP     int              `json:"used_p"`
-	UsedS     int              `json:"used_s"`
-	Trace     []string         `json:"trace,omitempty"`
-	Kernel    map[string]int   `json:"kernel,omitempty"`
-	Extra     map[string]any   `json:"extra,omitempty"`
+	Prop      string         `json:"property"`
+	Seed      int64          `json:"seed"`
+	Run       int            `json:"run"`
+	Outcome   *core.Outcome  `json:"outcome"`
+	TraceHash string         `json:"trace_hash"`
+	SchedSig  string         `json:"sched_sig"`
+	Steps     int            `json:"steps"`
+	Choices   int            `json:"choices"`
+	MaxLive   int            `json:"max_live"`
+	Policy    string         `json:"policy"`
+	P         []int          `json:"P,omitempty"`
+	S         []int          `json:"S,omitempty"`
+	UsedP     int            `json:"used_p"`
+	UsedS     int            `json:"used_s"`
+	Trace     []string       `json:"trace,omitempty"`
+	Kernel    map[string]int `json:"kernel,omitempty"`
+	Extra     map[string]any `json:"extra,omitempty"`
 }
 
 func execRun(p *core.Profile, t *kernel.Tape, seed int64, run int, keepTrace, keepTape bool) *runRecord {
@@ -143,7 +143,11 @@ func runMain(prop string, seed int64, run int, tapeFile string, trace bool) int 
 		t = kernel.NewSearchTape(seed, run)
 	}
 	watchdog(120 * time.Second)
+	rl := newRaceLog()
 	rec := execRun(p, t, seed, run, trace, true)
+	for _, v := range rl.fresh() {
+		rec.Outcome.Violate(prop+"/"+v.Class, v.Msg)
+	}
 	enc := json.NewEncoder(os.Stdout)
 	_ = enc.Encode(rec)
 	if rec.Outcome.Infra != "" {
